@@ -130,6 +130,10 @@ pub fn run(sc: &Value) -> Vec<String> {
 
     let do_run = |segs: Vec<usize>, op: &str| -> Result<Result<String, String>, String> {
         let mut cs = ConnScript::new(wire.clone());
+        if let (Some(at), false) = (guo(sc, "intr_at"), segs.is_empty()) {
+            // the transport read at this offset is interrupted once (EINTR): the caller's retry must go on seamlessly
+            cs.fault = Fault::Err { at, kind: std::io::ErrorKind::Interrupted, transient: true };
+        }
         cs.segs = segs.into();
         let mut world = World::new(vec![cs], vec![]);
         world.trace_conn = None;
@@ -247,9 +251,13 @@ pub fn generate(seed: u64, tier: &str) -> Vec<Value> {
                     if !thorough && (cut + bi) % 2 == 1 {
                         continue;
                     }
-                    out.push(json!({"id":format!("cs-{}", id),"ct":"charset","ctv":format!("text/plain; charset={}", e),"label":e,"req":"unset","sess":false,
+                    let mut sc = json!({"id":format!("cs-{}", id),"ct":"charset","ctv":format!("text/plain; charset={}", e),"label":e,"req":"unset","sess":false,
                         "op":"text_reader","reqdef":"UTF-8","sessdef":"UTF-8","explicit":"UTF-8","body_hex":hex(&body),"segs":[head + cut],
-                        "reader_bufs":bufs,"chunked":false,"bom_half":true}));
+                        "reader_bufs":bufs,"chunked":false,"bom_half":true});
+                    if (cut + bi + id) % 3 == 0 {
+                        sc["intr_at"] = json!(head + cut);
+                    }
+                    out.push(sc);
                     id += 1;
                 }
             }
